@@ -271,6 +271,19 @@ Theorem C06_unrouted_request_reaches_former_owner_refuted :
 Proof. exact hq_unrouted_request_reaches_former_owner. Qed.
 Print Assumptions C06_unrouted_request_reaches_former_owner_refuted.
 
+(* REFUTED, same root cause (the route is looked up once for the pool key and again for the dial): a
+   request routed to (h, "") whose dial is overtaken by the registration of the more specific route
+   (h, "/admin") pools a connection to the /admin backend under the key of (h, ""); the next request
+   that only (h, "") matches -- GET /public -- is served by the /admin route's backend.  Replayed on
+   the real code by driver `window` (gate in front of DialContext). *)
+Theorem C06_raced_registration_cross_wires_refuted :
+  exists st st',
+    hp_run hq_crosswire_witness = Some st /\
+    hp_step st (HBegin 2 0 0 (hx "682e74657374") (hx "2f7075626c6963") [] false) = Some (st', HReached 2) /\
+    hp_spec_out rc_owner (rt_abs (hp_routes st)) (hx "682e74657374") (hx "2f7075626c6963") [] = HReached 1.
+Proof. exact hq_request_cross_wired_to_other_route. Qed.
+Print Assumptions C06_raced_registration_cross_wires_refuted.
+
 (* every stream of a cleartext HTTP/2 connection is routed on its own: the outcome of a request does
    not depend on the client connection or stream it arrives on *)
 Theorem C06_h2c_streams_routed_individually : forall st rid cc proto cc' proto' host path user dialed,
